@@ -18,9 +18,29 @@ theorem nilShardIsExpired_iff (now d e : Int) : nilShardIsExpired now d e = true
 
 /-! ### membership -/
 
+theorem mem_insQ {x a : QItem} {l : List QItem} : x ∈ insQ a l ↔ x = a ∨ x ∈ l := by
+  induction l with
+  | nil => simp [insQ]
+  | cons b r ih =>
+    simp only [insQ]
+    split
+    · simp
+    · simp only [List.mem_cons, ih]
+      constructor
+      · rintro (h | h | h)
+        · exact Or.inr (Or.inl h)
+        · exact Or.inl h
+        · exact Or.inr (Or.inr h)
+      · rintro (h | h | h)
+        · exact Or.inr (Or.inl h)
+        · exact Or.inl h
+        · exact Or.inr (Or.inr h)
+
 theorem mem_sortQ {q : QItem} {l : List QItem} : q ∈ sortQ l ↔ q ∈ l := by
   unfold sortQ
-  exact List.mem_mergeSort
+  induction l with
+  | nil => simp
+  | cons a r ih => simp only [List.foldr_cons, mem_insQ, ih, List.mem_cons]
 
 theorem mem_expiredLoaded {now : Int} {eng : List EShard} {nm : List DurInfo} {q : QItem} :
     q ∈ expiredLoaded now eng nm ↔
@@ -950,9 +970,9 @@ theorem mem_markFirstGE {id : Nat} {l : List CShard} {c' : CShard} (h : c' ∈ m
     split at h
     · rcases List.mem_cons.mp h with rfl | h
       · exact ⟨a, List.mem_cons_self, rfl, rfl, fun _ => rfl⟩
-      · exact ⟨c', List.mem_cons_of_mem _ h, rfl, rfl, id⟩
+      · exact ⟨c', List.mem_cons_of_mem _ h, rfl, rfl, fun h => h⟩
     · rcases List.mem_cons.mp h with rfl | h
-      · exact ⟨c', List.mem_cons_self, rfl, rfl, id⟩
+      · exact ⟨c', List.mem_cons_self, rfl, rfl, fun h => h⟩
       · obtain ⟨c, hc, hh⟩ := ih h
         exact ⟨c, List.mem_cons_of_mem _ hc, hh⟩
 
@@ -1034,8 +1054,8 @@ theorem mem_pruneGroup_shards {id : Nat} {g : Group} {c' : CShard} (h : c' ∈ (
   split at h
   · split at h
     · exact mem_markFirstGE h
-    · exact ⟨c', h, rfl, rfl, id⟩
-  · exact ⟨c', h, rfl, rfl, id⟩
+    · exact ⟨c', h, rfl, rfl, fun h => h⟩
+  · exact ⟨c', h, rfl, rfl, fun h => h⟩
 
 /-- marks are only ever set. -/
 theorem procItem_marks {o : Outcome} {q : QItem} {σ : St} {g' : Group} {c' : CShard}
@@ -1075,6 +1095,258 @@ theorem procItem_prunes {o : Outcome} {q : QItem} {σ : St} (hst : CatStatic σ.
   obtain ⟨hm, _⟩ := List.mem_filter.mp hg'
   obtain ⟨g1, hg1, rfl⟩ := List.mem_map.mp hm
   exact pruneGroup_marks q.sid g1 (hst1 g1 hg1).2 c hc hid
+
+/-! ### what one loop iteration, and the whole loop, keeps and removes -/
+
+theorem procItem_eng_keep {o : Outcome} {q : QItem} {σ : St} {s : EShard} (hs : s ∈ σ.eng)
+    (hne : s.sid ≠ q.sid) : s ∈ (procItem o q σ).eng := by
+  simp only [procItem]
+  unfold delEng
+  have : (s.sid != q.sid) = true := by simpa using hne
+  split
+  · exact List.mem_filter.mpr ⟨hs, this⟩
+  · exact List.mem_filter.mpr ⟨hs, this⟩
+  · exact hs
+
+theorem procItem_disk_keep {o : Outcome} {q : QItem} {σ : St} {x : Nat} (hx : x ∈ σ.disk)
+    (hne : x ≠ q.sid) : x ∈ (procItem o q σ).disk := by
+  simp only [procItem]
+  unfold delDisk
+  split
+  · exact List.mem_filter.mpr ⟨hx, by simpa using hne⟩
+  · exact hx
+
+theorem procItem_disk_sub {o : Outcome} {q : QItem} {σ : St} {x : Nat} (hx : x ∈ (procItem o q σ).disk) :
+    x ∈ σ.disk := by
+  simp only [procItem] at hx
+  unfold delDisk at hx
+  split at hx
+  · exact (List.mem_filter.mp hx).1
+  · exact hx
+
+theorem engDelRes_cases (sid : Nat) (eng : List EShard) :
+    (engDelRes sid eng = .notFound ∧ ∀ s ∈ eng, s.sid ≠ sid) ∨
+    (engDelRes sid eng = .ok ∧ ∃ s ∈ eng, s.sid = sid ∧ s.idx = true) ∨
+    (engDelRes sid eng = .closedErr ∧ ∃ s ∈ eng, s.sid = sid ∧ s.idx = false) := by
+  unfold engDelRes
+  split
+  · rename_i s hf
+    have hm := List.mem_of_find?_eq_some hf
+    have hsid : s.sid = sid := by simpa using List.find?_some hf
+    by_cases hi : s.idx = true
+    · exact Or.inr (Or.inl ⟨by simp [hi], s, hm, hsid, hi⟩)
+    · exact Or.inr (Or.inr ⟨by simp [hi], s, hm, hsid, by simpa using hi⟩)
+  · rename_i hf
+    refine Or.inl ⟨rfl, fun s hs hsid => ?_⟩
+    have := List.find?_eq_none.mp hf s hs
+    simp [hsid] at this
+
+theorem procItem_pending {o : Outcome} {q : QItem} {σ : St} (h : o.del ≠ .timeout) :
+    (procItem o q σ).pending = σ.pending := by
+  simp only [procItem]
+  have hne : delRes o.del q.sid σ.eng σ.pending ≠ .timedOut := by
+    unfold delRes
+    split
+    · intro hh; cases hh
+    · cases hd : o.del with
+      | timeout => exact absurd hd h
+      | fail => intro hh; cases hh
+      | ok =>
+        simp only
+        rcases engDelRes_cases q.sid σ.eng with ⟨h1, _⟩ | ⟨h1, _⟩ | ⟨h1, _⟩ <;> rw [h1] <;> intro hh <;> cases hh
+  unfold delPending
+  split
+  · rename_i hr; exact absurd hr hne
+  · rfl
+
+/-- an iteration whose delete reaches the engine leaves no shard object with that id. -/
+theorem procItem_removes {o : Outcome} {q : QItem} {σ : St} (hd : o.del = .ok)
+    (hp : q.sid ∉ σ.pending) : ∀ s ∈ (procItem o q σ).eng, s.sid ≠ q.sid := by
+  intro s hs
+  simp only [procItem] at hs
+  have hr : delRes o.del q.sid σ.eng σ.pending = engDelRes q.sid σ.eng := by
+    unfold delRes
+    have : σ.pending.contains q.sid = false := by simpa using hp
+    rw [this, hd]; simp
+  rw [hr] at hs
+  rcases engDelRes_cases q.sid σ.eng with ⟨h1, h2⟩ | ⟨h1, _⟩ | ⟨h1, _⟩
+  · rw [h1] at hs; exact h2 s hs
+  · rw [h1] at hs; simpa using (List.mem_filter.mp hs).2
+  · rw [h1] at hs; simpa using (List.mem_filter.mp hs).2
+
+/-- … and, when the shard object was a healthy one, no directory either. -/
+theorem procItem_removes_disk {o : Outcome} {q : QItem} {σ : St} (hd : o.del = .ok)
+    (hp : q.sid ∉ σ.pending) (hidx : ∀ s ∈ σ.eng, s.sid = q.sid → s.idx = true)
+    (hon : q.sid ∈ σ.disk → ∃ s ∈ σ.eng, s.sid = q.sid) : q.sid ∉ (procItem o q σ).disk := by
+  intro hx
+  have hx0 := procItem_disk_sub hx
+  obtain ⟨s0, hs0, hs0id⟩ := hon hx0
+  simp only [procItem] at hx
+  have hr : delRes o.del q.sid σ.eng σ.pending = engDelRes q.sid σ.eng := by
+    unfold delRes
+    have : σ.pending.contains q.sid = false := by simpa using hp
+    rw [this, hd]; simp
+  rw [hr] at hx
+  rcases engDelRes_cases q.sid σ.eng with ⟨_, h2⟩ | ⟨h1, _⟩ | ⟨_, s, hs, hsid, hi⟩
+  · exact h2 s0 hs0 hs0id
+  · rw [h1] at hx
+    simp [delDisk] at hx
+  · have := hidx s hs hsid
+    rw [hi] at this; exact Bool.noConfusion this
+
+/-- target of the liveness argument: the shard is gone from the store and marked in the catalogue. -/
+def Removed (σ : St) (sid : Nat) : Prop :=
+  (∀ s ∈ σ.eng, s.sid ≠ sid) ∧ (∀ g ∈ σ.cat, ∀ c ∈ g.shards, c.sid = sid → c.marked = true)
+
+theorem Removed.procItem {σ : St} {sid : Nat} (h : Removed σ sid) (o : Outcome) (q : QItem) :
+    Removed (procItem o q σ) sid := by
+  constructor
+  · intro s hs; exact h.1 s (mem_delEng (by simpa only [OG.C14.procItem] using hs))
+  · intro g' hg' c' hc' hid
+    obtain ⟨g, hg, c, hc, h1, _, h3⟩ := procItem_marks hg' hc'
+    exact h3 (h.2 g hg c hc (h1 ▸ hid))
+
+theorem Removed.procQ {σ : St} {sid : Nat} (h : Removed σ sid) (oc : Nat → Outcome) (Q : List QItem) :
+    Removed (procQ oc Q σ) sid := by
+  induction Q generalizing σ with
+  | nil => exact h
+  | cons q r ih => exact ih (h.procItem _ _)
+
+theorem procItem_catStatic {o : Outcome} {q : QItem} {σ : St} (h : CatStatic σ.cat) :
+    CatStatic (procItem o q σ).cat :=
+  h.of_skel (fun g' hg' => by obtain ⟨g, hg, hs, _⟩ := procItem_cat_back hg'; exact ⟨g, hg, hs⟩)
+
+/-- a loop in which every call succeeds removes every shard it was given. -/
+theorem procQ_removes (oc : Nat → Outcome) (sid : Nat) : ∀ (Q : List QItem) (σ : St), CatStatic σ.cat →
+    (∀ q ∈ Q, oc q.sid = .good) → sid ∉ σ.pending → (∃ q ∈ Q, q.sid = sid) →
+    Removed (procQ oc Q σ) sid := by
+  intro Q
+  induction Q with
+  | nil => intro σ _ _ _ h; obtain ⟨q, hq, _⟩ := h; simp at hq
+  | cons q rest ih =>
+    intro σ hst hgood hpend hex
+    have hg : oc q.sid = .good := hgood q List.mem_cons_self
+    simp only [procQ]
+    by_cases hq : q.sid = sid
+    · apply Removed.procQ
+      rw [hg]
+      constructor
+      · intro s hs; rw [← hq]; exact procItem_removes rfl (hq ▸ hpend) s hs
+      · intro g' hg' c hc hid
+        exact procItem_prunes hst rfl g' hg' c hc (hid.trans hq.symm)
+    · apply ih _ (procItem_catStatic hst) (fun q' hq' => hgood q' (List.mem_cons_of_mem _ hq'))
+      · rw [procItem_pending (by rw [hg]; simp [Outcome.good])]; exact hpend
+      · obtain ⟨q', hq', hs'⟩ := hex
+        rcases List.mem_cons.mp hq' with rfl | hq'
+        · exact absurd hs' hq
+        · exact ⟨q', hq', hs'⟩
+
+/-- the loop does not touch shards it was not given … -/
+theorem procQ_eng_keep (oc : Nat → Outcome) : ∀ (Q : List QItem) (σ : St) (s : EShard), s ∈ σ.eng →
+    (∀ q ∈ Q, q.sid ≠ s.sid) → s ∈ (procQ oc Q σ).eng := by
+  intro Q
+  induction Q with
+  | nil => intro σ s hs _; exact hs
+  | cons q rest ih =>
+    intro σ s hs hne
+    simp only [procQ]
+    exact ih _ s (procItem_eng_keep hs (fun h => hne q List.mem_cons_self h.symm))
+      (fun q' hq' => hne q' (List.mem_cons_of_mem _ hq'))
+
+theorem procQ_disk_keep (oc : Nat → Outcome) : ∀ (Q : List QItem) (σ : St) (x : Nat), x ∈ σ.disk →
+    (∀ q ∈ Q, q.sid ≠ x) → x ∈ (procQ oc Q σ).disk := by
+  intro Q
+  induction Q with
+  | nil => intro σ x hx _; exact hx
+  | cons q rest ih =>
+    intro σ x hx hne
+    simp only [procQ]
+    exact ih _ x (procItem_disk_keep hx (fun h => hne q List.mem_cons_self h.symm))
+      (fun q' hq' => hne q' (List.mem_cons_of_mem _ hq'))
+
+/-- … nor groups none of the given shards points to. -/
+theorem procQ_group_keep (oc : Nat → Outcome) : ∀ (Q : List QItem) (σ : St) (g : Group), g ∈ σ.cat →
+    g.deleted = false → (∀ q ∈ Q, q.gid ≠ g.gid) →
+    ∃ g' ∈ (procQ oc Q σ).cat, Skel g' g ∧ g'.deleted = false := by
+  intro Q
+  induction Q with
+  | nil => intro σ g hg hl _; exact ⟨g, hg, Skel.refl g, hl⟩
+  | cons q rest ih =>
+    intro σ g hg hl hne
+    simp only [procQ]
+    obtain ⟨g1, hg1, hs1, hl1⟩ := procItem_cat_keep (o := oc q.sid) (q := q) hg hl
+      (fun h => hne q List.mem_cons_self h.2.symm)
+    obtain ⟨g2, hg2, hs2, hl2⟩ := ih _ g1 hg1 hl1 (fun q' hq' => by
+      rw [hs1.1]; exact hne q' (List.mem_cons_of_mem _ hq'))
+    exact ⟨g2, hg2, hs2.trans hs1, hl2⟩
+
+/-- marks of shards the loop was not given stay as they were (exact pruning). -/
+theorem procQ_disk_sub (oc : Nat → Outcome) : ∀ (Q : List QItem) (σ : St) (x : Nat),
+    x ∈ (procQ oc Q σ).disk → x ∈ σ.disk := by
+  intro Q
+  induction Q with
+  | nil => intro σ x hx; exact hx
+  | cons q rest ih => intro σ x hx; exact procItem_disk_sub (ih _ x hx)
+
+/-! ### the head of a run -/
+
+theorem runHead_eq {sc : Script} {σ : St} (hidle : σ.phase = .idle) (hrf : sc.refreshOk = true) :
+    steps σ (runHead sc) =
+      collect (match sc.alterMid with
+        | some d => { refreshOk σ with metaDur := d }
+        | none => refreshOk σ) := by
+  unfold runHead
+  rw [hrf]
+  have h1 : step σ (.refresh true) = refreshOk σ := by simp only [step, hidle, ↓reduceIte]
+  cases sc.alterMid with
+  | none =>
+    simp only [List.append_nil, List.singleton_append, steps, List.foldl_cons, List.foldl_nil, h1]
+    simp only [step, refreshOk]
+  | some d =>
+    simp only [List.cons_append, List.nil_append, steps, List.foldl_cons, List.foldl_nil, h1]
+    simp only [step, refreshOk]
+
+theorem runHead_ok {sc : Script} {σ : St} (hidle : σ.phase = .idle) (hrf : sc.refreshOk = true) :
+    (steps σ (runHead sc)).queue = sortQ (expiredShards σ.clock (refreshOk σ).eng (refreshOk σ).nilMap) ∧
+    (steps σ (runHead sc)).cat = σ.cat ∧ (steps σ (runHead sc)).eng = (refreshOk σ).eng ∧
+    (steps σ (runHead sc)).disk = σ.disk ∧ (steps σ (runHead sc)).pending = σ.pending ∧
+    (steps σ (runHead sc)).clock = σ.clock ∧ (steps σ (runHead sc)).log = σ.log ∧
+    ((steps σ (runHead sc)).queue ≠ [] → (steps σ (runHead sc)).phase = .processing) := by
+  rw [runHead_eq hidle hrf]
+  cases sc.alterMid with
+  | none =>
+    refine ⟨rfl, rfl, rfl, rfl, rfl, rfl, rfl, ?_⟩
+    intro hne
+    simp only [collect] at hne ⊢
+    simp only [List.isEmpty_iff, hne, ↓reduceIte]
+  | some d =>
+    refine ⟨rfl, rfl, rfl, rfl, rfl, rfl, rfl, ?_⟩
+    intro hne
+    simp only [collect] at hne ⊢
+    simp only [List.isEmpty_iff, hne, ↓reduceIte]
+
+theorem runHead_fail {sc : Script} {σ : St} (hidle : σ.phase = .idle) (hrf : sc.refreshOk = false) :
+    (steps σ (runHead sc)).queue = σ.queue ∧ (steps σ (runHead sc)).cat = σ.cat ∧
+    (steps σ (runHead sc)).eng = σ.eng ∧ (steps σ (runHead sc)).disk = σ.disk ∧
+    (steps σ (runHead sc)).pending = σ.pending ∧ (steps σ (runHead sc)).log = σ.log ∧
+    (steps σ (runHead sc)).phase = .idle := by
+  unfold runHead
+  rw [hrf]
+  have h1 : step σ (.refresh false) = σ := by simp only [step, hidle]; rfl
+  cases sc.alterMid with
+  | none =>
+    simp only [List.append_nil, List.singleton_append, steps, List.foldl_cons, List.foldl_nil, h1]
+    simp [step, hidle]
+  | some d =>
+    simp only [List.cons_append, List.nil_append, steps, List.foldl_cons, List.foldl_nil, h1]
+    simp [step, hidle]
+
+theorem run_core (sc : Script) (σ : St)
+    (hph : (steps σ (runHead sc)).queue ≠ [] → (steps σ (runHead sc)).phase = .processing) :
+    Core (run sc σ) = Core (procQ sc.outcome (steps σ (runHead sc)).queue (steps σ (runHead sc))) := by
+  unfold run runOps
+  rw [steps_append]
+  exact steps_procs sc.outcome _ _ rfl hph
 
 theorem WF.steps {σ : St} (h : WF σ) (ops : List Op) : WF (steps σ ops) := by
   induction ops generalizing σ with
